@@ -88,7 +88,8 @@ impl Serialize for Number {
             map.serialize_entry("val", &self.value)?;
             map.serialize_entry("unit", unit.symbol())?;
             map.end()
-        } else if self.value.fract() == 0.0 {
+        } else if self.value.fract() == 0.0 && self.value.abs() < 9_223_372_036_854_775_808.0 {
+            // Integral and inside the i64 range, larger magnitudes would saturate
             serializer.serialize_i64(self.value as i64)
         } else {
             serializer.serialize_f64(self.value)
